@@ -516,6 +516,9 @@ type GlobalInit struct {
 	Lit   string
 	Ints  []string // initints: expected integer elements (decimal)
 	IsInts bool
+	IsSplit bool   // initsplit: X = strings.Split(<const>, <const sep>)
+	SplitSep string
+	SplitN   int
 	Props []string
 	Src   string
 }
@@ -824,6 +827,35 @@ func (db *SpecDB) LoadSpecFile(path, pkgPath string, trusted bool) error {
 				}
 				db.GlobalInits = append(db.GlobalInits, gi)
 				le, err := parseSpecExpr(fact)
+				if err != nil {
+					return fail(err)
+				}
+				db.GlobalFacts[name] = append(db.GlobalFacts[name], le)
+				continue
+			}
+			// global Name initsplit "sep" count N [tags]: the package initialiser
+			// assigns strings.Split(<string constant>, "sep"), which has N elements
+			// (N is recomputed from the constant found in init's SSA on every run)
+			if k := strings.Index(rest, " initsplit "); k >= 0 {
+				name := strings.TrimSpace(rest[:k])
+				if pkgPath != "" && !strings.Contains(name, ".") {
+					name = pkgPath + "." + name
+				}
+				body, tags := splitTags(rest[k+len(" initsplit "):])
+				c := strings.Index(body, " count ")
+				if c < 0 {
+					return fail(fmt.Errorf("global <name> initsplit \"sep\" count N"))
+				}
+				sep, err := strconv.Unquote(strings.TrimSpace(body[:c]))
+				if err != nil || sep == "" {
+					return fail(fmt.Errorf("initsplit separator: %v", err))
+				}
+				n, err := strconv.Atoi(strings.TrimSpace(body[c+len(" count "):]))
+				if err != nil {
+					return fail(fmt.Errorf("initsplit count: %v", err))
+				}
+				db.GlobalInits = append(db.GlobalInits, &GlobalInit{Name: name, IsSplit: true, SplitSep: sep, SplitN: n, Props: tags, Src: src})
+				le, err := parseSpecExpr(fmt.Sprintf("len(it) == %d", n))
 				if err != nil {
 					return fail(err)
 				}
